@@ -31,14 +31,15 @@ theorem drop_as_index (v i : GoVal) : indexValue v (.drop i) = indexValue v i :=
 theorem drop_test (v : GoVal) : (GoVal.drop v).test = v.test := by simp [test, unwrap]
 theorem drop_intOf (v : GoVal) : (GoVal.drop v).intOf = v.intOf := by simp [intOf, unwrap]
 
-/-- a variable bound to a drop evaluates to the drop's value -/
+/-- a variable bound to a drop evaluates to the drop's value (a drop that yields a drop is resolved in turn:
+    `values.ToLiquid` after `fixes/nested-drops-resolved`) -/
 theorem eval_var_drop (P : Prims) (env : Env) (x : Bytes) (v : GoVal) (h : env.get x = .drop v) :
-    eval P env (.var x) = .ok v := by
-  rw [eval]; simp [h, GoVal.toLiquid]
+    eval P env (.var x) = .ok v.toLiquid := by
+  rw [eval]; simp [h]
 
-/-- printing a drop prints its value (for a value that is not itself a drop or a pointer to one) -/
+/-- printing a drop prints its value, whatever that value is (a drop of a drop included) -/
 theorem drop_prints_as_value (v : GoVal) : stdChunks (.drop v) = writeChunksL v := by
-  simp [stdChunks, GoVal.toLiquid]
+  rw [stdChunks_eq_writeChunksL, writeChunksL_drop]
 
 /-- a loop over a drop visits the items of its value: the collection expression is evaluated
     through `Interface()`, which resolves drops -/
@@ -240,10 +241,12 @@ generic containers of the same contents at every depth, and — through `unwrap`
 a drop (of any depth) or a pointer (not to a struct) with the value it stands for. For this
 relation the standard output layer (`stdOut_respects`), the standard comparisons
 (`opEq_prep_vrel`, `opLt_prep_vrel`, `opContains_prep_vrel`, `equal_prep_repEq`) and every standard
-filter except those that observe the Go representation (`reprFilters`: `uniq`, and the value/debugging
-filters `json`, `inspect`, `type`) respect it (`filterRespects_std`: exactly, all but `sort`,
+filter except those that observe the Go representation (`reprFilters`: the value/debugging
+filters `json`, `inspect`, `type`; `uniq` was one of them until `fixes/nested-drops-resolved`: `uniq_respects`)
+respect it (`filterRespects_std`: exactly, all but `sort`,
 `sort_natural` and `reprFilters`; `filterRespects_std_upto`: up to `unmodelled`, all but `reprFilters`). Drops *inside*
-containers are not covered for the standard configuration: see the counterexamples below. -/
+containers (`d = true`) are covered for the standard OUTPUT layer (`run_stdOut_rep_independent_nested_drops` below)
+and for `uniq` (`uniqKey_repEq`), not yet for the standard comparisons and the other filter bodies. -/
 
 /-- **C18 for the standard configuration** (partial). `allowed` says which filters are registered
 on the engine (`stdPrimsOnly allowed`; with `fun _ => true` it is `stdPrims`). Rendering any
@@ -253,30 +256,31 @@ outside the model).
 
 Full statement wanted: the same for `stdPrims`, with equal results, for `ERel true`. What is missing,
 and why (each with an evaluated counterexample below):
-* `hrepr` — `uniq`, `json`, `inspect` and `type` must not be registered: they do *not* respect the
-  equivalence (`uniq` compares elements by Go interface equality, which sees the element type of a
-  nested slice; `type` prints the Go type; `json`/`inspect` marshal the Go value: a `[]uint8` is
-  base64 text, a `map[any]any` is rejected);
+* `hrepr` — `json`, `inspect` and `type` must not be registered: they do *not* respect the
+  equivalence (`type` prints the Go type; `json`/`inspect` marshal the Go value: a `[]uint8` is
+  base64 text, a `map[any]any` is rejected); `uniq` may be registered since `fixes/nested-drops-resolved`
+  (it compared elements by Go interface equality, which saw the element type of a nested slice);
 * "agree" instead of "equal": a fixed-array needle against an ordered map with a fixed-array key is
   `unmodelled` (`comparableV`) while the generic slice gives `false`; `sort`/`sort_natural` answer
   `unmodelled` for more than 12 elements with ties that differ in their encoding (up to 12 elements —
   Go's insertion sort, modelled exactly — they respect the equivalence exactly:
   `sortWith_rel_short`, `sortNaturalWith_rel_short`);
-* `d = false`: drops nested in containers are exposed by `fmt.Sprint` (printing a map, a string
-  filter applied to an array), and a drop that yields a drop by `values.Equal`. -/
+* `d = false`: the code no longer exposes drops nested in containers (the four deviations are repaired: theorems at
+  the end of this file) and the output layer respects `d = true` (`stdOut_respects t true`); the congruence of
+  `values.Equal` / `Less` / `contains` and of the filter bodies is proved for `d = false` only. -/
 theorem run_std_rep_independent_partial (allowed : Bytes → Bool) (hrepr : ∀ n ∈ reprFilters, allowed n = false)
     (cfg : Cfg) (fs : FS) (fuel : Nat) (src : Bytes) (line : Nat) (env env' : Env)
     (he : ∀ x, ERel false (env.get x) (env'.get x)) :
     RunAgree true (run (stdPrimsOnly allowed) stdOut cfg fs fuel src line env)
       (run (stdPrimsOnly allowed) stdOut cfg fs fuel src line env') := by
-  refine run_rel _ _ cfg fs fuel (stdPrimsOnly_respects allowed ?_) (stdOut_respects true) src line he
+  refine run_rel _ _ cfg fs fuel (stdPrimsOnly_respects allowed ?_) (stdOut_respects true false) src line he
   intro n _ ha
   refine filterRespects_std_upto n (fun hn => ?_)
   rw [hrepr n hn] at ha
   cases ha
 
-/-- **C18 for the standard engine without `uniq`, `json`, `inspect`, `type`** (the filters that observe
-the Go representation): no hypothesis left. Every template, every file system and include depth:
+/-- **C18 for the standard engine without `json`, `inspect`, `type`** (the filters that observe
+the Go representation; `uniq` is on the engine since `fixes/nested-drops-resolved`): no hypothesis left. Every template, every file system and include depth:
 environments that differ in typed vs generic slices, fixed arrays vs slices, typed vs generic maps
 (at any depth), and in drops and pointers around a binding, render to agreeing results. -/
 theorem run_std_rep_independent_without_repr_filters (cfg : Cfg) (fs : FS) (fuel : Nat) (src : Bytes) (line : Nat) (env env' : Env)
@@ -285,9 +289,13 @@ theorem run_std_rep_independent_without_repr_filters (cfg : Cfg) (fs : FS) (fuel
       (run (stdPrimsOnly withoutRepr) stdOut cfg fs fuel src line env') :=
   run_std_rep_independent_partial withoutRepr (fun n hn => by simp [withoutRepr, hn]) cfg fs fuel src line env env' he
 
+/-- `uniq` is covered by the theorem: it respects the equivalence (it is not a `reprFilter` any more) -/
+example : FilterRespects true (ArrF.bn "uniq") := filterRespects_std_upto _ (by decide +kernel)
+example : withoutRepr (ArrF.bn "uniq") = true := by decide +kernel
+
 /-- the output layer respects the equivalence exactly (no `unmodelled` escape) -/
 example (v v' : GoVal) (h : URel false v v') : stdOut.chunks v = stdOut.chunks v' :=
-  ((stdOut_respects false).chunks v v' h).eq
+  ((stdOut_respects false false).chunks v v' h).eq
 
 /-- the hypotheses on the environments are satisfiable: `x` bound to a drop of a pointer to a typed
     slice of fixed arrays, against the generic slice of generic slices -/
@@ -314,13 +322,6 @@ code distinguishes representations that C18 declares equivalent — each was als
 engine of /repo with the template and the two bindings named in its comment, with the two
 different results stated) -/
 
-/-- *`uniq` sees the element type of nested slices.* Template `{{ a | uniq | size }}` with
-`a = []any{[]int{1}, []any{1}}` gives 2, with `a = []any{[]any{1}, []any{1}}` gives 1
-(`uniqFilter` compares with `==` / `reflect.DeepEqual`: same dynamic type and contents). -/
-example : lenOfRes (stdPrims.applyFilter (ArrF.bn "uniq") (.slice .any [.slice (.int .int) [.int .int 1], .slice .any [.int .int 1]]) []) = 2 ∧
-    lenOfRes (stdPrims.applyFilter (ArrF.bn "uniq") (.slice .any [.slice .any [.int .int 1], .slice .any [.int .int 1]]) []) = 1 := by
-  decide +kernel
-
 /-- *`type` prints the Go type.* Template `{{ a | type }}` with `a = []int{1}` prints `[]int`, with
 `a = []any{1}` it prints `[]interface {}` — the purpose of the filter. -/
 example : (match stdPrims.applyFilter (JsonF.bn "type") (.slice (.int .int) [.int .int 1]) [],
@@ -341,30 +342,84 @@ example : (match stdPrims.applyFilter (JsonF.bn "json") (.slice (.int .u8) [.int
     | _, _, _, _ => false) = true := by
   decide +kernel
 
-/-- *`fmt.Sprint` shows a drop inside a map.* Template `{{ m }}` with `m = map[string]any{"a": Drop{1}}`
-prints `map[a:{1}]`, with `m = map[string]any{"a": 1}` it prints `map[a:1]`. -/
-example : stdChunks (.map .str .any [(.str [97], .drop (.int .int 1))]) = .ok [[109, 97, 112, 91, 97, 58, 123, 49, 125, 93]] ∧
-    stdChunks (.map .str .any [(.str [97], .int .int 1)]) = .ok [[109, 97, 112, 91, 97, 58, 49, 93]] := by
-  decide +kernel
-
-/-- *A string filter applied to an array shows the drops in it.* Template `{{ a | append: "" }}` with
-`a = []any{Drop{1}}` gives `[{1}]`, with `a = []any{1}` it gives `[1]` (`Convert(·, string)` is
-`fmt.Sprint` after one `ToLiquid` of the array itself). -/
-example : strOfRes (stdPrims.applyFilter (ArrF.bn "append") (.slice .any [.drop (.int .int 1)]) [.str []]) = [91, 123, 49, 125, 93] ∧
-    strOfRes (stdPrims.applyFilter (ArrF.bn "append") (.slice .any [.int .int 1]) [.str []]) = [91, 49, 93] := by
-  decide +kernel
-
-/-- *A drop that yields a drop, inside an array, is not its final value for `values.Equal`*
-(`ToLiquid` is applied once per element). Template `{% case a %}{% when b %}eq{% endcase %}` with
-`a = []any{DropOf(DropOf(1))}`, `b = []any{1}` does not print `eq`; with `a = []any{1}` it does. -/
-example : stdPrims.equalFn (.slice .any [.drop (.drop (.int .int 1))]) (.slice .any [.int .int 1]) ≠ .ok true ∧
-    stdPrims.equalFn (.slice .any [.int .int 1]) (.slice .any [.int .int 1]) = .ok true := by
-  decide +kernel
-
 /-- *A fixed array is comparable in Go, a slice is not.* `m contains x` for an ordered map `m` with
 the key `[1]int{1}`: with `x = [1]int{1}` the model makes no claim (`==` on arrays: `unmodelled`; in
 Go the comparison succeeds), with `x = []int{1}` it is false. Hence "agree" (`RunAgree true`). -/
 example : stdPrims.contains (.mapSlice [(.array (.int .int) [.int .int 1], .nil)]) (.array (.int .int) [.int .int 1])
       = .unmodelled "comparability of an array value" ∧
     stdPrims.contains (.mapSlice [(.array (.int .int) [.int .int 1], .nil)]) (.slice (.int .int) [.int .int 1]) = .ok false := by
+  decide +kernel
+
+/-! ## Drops nested in containers (`d = true`): the standard OUTPUT layer respects them
+
+Since `fixes/nested-drops-resolved` the printing side of the whole-template theorem holds for the relation WITH
+drops nested in containers: `stdOut_respects t true` (`Proofs/RepEqStd.lean`; `writeChunksL_norm`, `sprintR_norm`
+for every `d`). What remains for the standard engine with `d = true` is the comparison/filter layer
+(`PrimsRespect true true stdPrims`): `values.Equal` / `Less` / `contains` and the filter bodies on values with
+nested drops, which are proved for `d = false` only (`stdPrimsOnly_respects`); `uniq` identifies elements that
+differ in nested drops already (`ArrF.uniqKey_repEq`, for every `d`). -/
+
+/-- **C18 with nested drops, standard printing.** For every comparison/filter layer that respects the
+equivalence with drops nested in containers, the STANDARD output layer (`writeObject`: arrays element by element,
+maps and structs through `fmt.Sprint(values.ResolveDrops(·))`) and every template: two environments whose bindings
+differ in typed vs generic containers and in drops at ANY depth of arrays and maps render to the same result. -/
+theorem run_stdOut_rep_independent_nested_drops (P : Prims) (hP : PrimsRespect false true P)
+    (cfg : Cfg) (fs : FS) (fuel : Nat) (src : Bytes) (line : Nat) (env env' : Env)
+    (he : ∀ x, ERel true (env.get x) (env'.get x)) :
+    run P stdOut cfg fs fuel src line env = run P stdOut cfg fs fuel src line env' :=
+  run_rep_independent true P stdOut hP (stdOut_respects false true) cfg fs fuel src line env env' he
+
+/-- the standard output layer writes a value with drops nested at every depth (in an array in a map in an array,
+    a drop of a drop) exactly as its generic twin -/
+example : stdOut.chunks (.slice (.map .str .any) [.map .str .any [(.str [97], .drop (.slice (.int .int) [.drop (.drop (.int .int 1))]))]])
+    = stdOut.chunks (.slice .any [.map .str .any [(.str [97], .slice .any [.int .int 1])]]) :=
+  ((stdOut_respects false true).chunks _ _ ⟨by simp [Unw, unwrap], by simp [Unw, unwrap],
+    by simp [RepEq, norm, normList, normKVs, dropRigid, isRec, cyclesOf]⟩).eq
+
+/-! ## The four deviations repaired by `fixes/nested-drops-resolved` (DESIGN 7.1b)
+
+Each was a proved counterexample here (the two renders differ); each is now the opposite statement, evaluated on
+the same template and the same two bindings. -/
+
+/-- *`uniq` no longer sees the element type of nested slices.* Template `{{ a | uniq | size }}` with
+`a = []any{[]int{1}, []any{1}}` gives 1, as with `a = []any{[]any{1}, []any{1}}` (it gave 2): `eqItems` compares
+arrays by what they hold. -/
+theorem uniq_typed_nested_slice_repaired :
+    lenOfRes (stdPrims.applyFilter (ArrF.bn "uniq") (.slice .any [.slice (.int .int) [.int .int 1], .slice .any [.int .int 1]]) []) = 1 ∧
+    lenOfRes (stdPrims.applyFilter (ArrF.bn "uniq") (.slice .any [.slice .any [.int .int 1], .slice .any [.int .int 1]]) []) = 1 := by
+  decide +kernel
+
+/-- *A drop inside a map that is printed whole is its value.* Template `{{ m }}` with
+`m = map[string]any{"a": Drop{1}}` prints `map[a:1]`, as with `m = map[string]any{"a": 1}` (it printed
+`map[a:{1}]`): `writeObject` prints `fmt.Sprint(values.ResolveDrops(m))`. -/
+theorem drop_in_printed_map_repaired :
+    stdChunks (.map .str .any [(.str [97], .drop (.int .int 1))]) = .ok [[109, 97, 112, 91, 97, 58, 49, 93]] ∧
+    stdChunks (.map .str .any [(.str [97], .int .int 1)]) = .ok [[109, 97, 112, 91, 97, 58, 49, 93]] := by
+  decide +kernel
+
+/-- *A string filter applied to an array sees the values of the drops in it.* Template `{{ a | append: "" }}`
+with `a = []any{Drop{1}}` gives `[1]`, as with `a = []any{1}` (it gave `[{1}]`): `Convert(·, string)` is
+`fmt.Sprint(values.ResolveDrops(a))`. -/
+theorem drop_in_array_to_string_repaired :
+    strOfRes (stdPrims.applyFilter (ArrF.bn "append") (.slice .any [.drop (.int .int 1)]) [.str []]) = [91, 49, 93] ∧
+    strOfRes (stdPrims.applyFilter (ArrF.bn "append") (.slice .any [.int .int 1]) [.str []]) = [91, 49, 93] := by
+  decide +kernel
+
+/-- *A drop that yields a drop, inside an array, is its final value for `values.Equal`.* Template
+`{% case a %}{% when b %}eq{% endcase %}` with `a = []any{DropOf(DropOf(1))}`, `b = []any{1}` prints `eq`, as with
+`a = []any{1}` (it did not): `ToLiquid` follows the chain of drops. -/
+theorem drop_of_drop_in_array_equal_repaired :
+    stdPrims.equalFn (.slice .any [.drop (.drop (.int .int 1))]) (.slice .any [.int .int 1]) = .ok true ∧
+    stdPrims.equalFn (.slice .any [.int .int 1]) (.slice .any [.int .int 1]) = .ok true := by
+  decide +kernel
+
+/-- deeper: a drop of a drop of a drop in a map in an array in a map prints as the value it finally yields,
+    under `{{ m }}` and under `{{ m | append: "" }}` -/
+example :
+    stdChunks (.map .str .any [(.str [97], .slice .any [.map .str .any [(.str [98], .drop (.drop (.drop (.int .int 1))))]])])
+      = .ok [[109, 97, 112, 91, 97, 58, 91, 109, 97, 112, 91, 98, 58, 49, 93, 93, 93]] ∧
+    stdChunks (.map .str .any [(.str [97], .slice .any [.map .str .any [(.str [98], .int .int 1)]])])
+      = .ok [[109, 97, 112, 91, 97, 58, 91, 109, 97, 112, 91, 98, 58, 49, 93, 93, 93]] ∧
+    strOfRes (stdPrims.applyFilter (ArrF.bn "append") (.map .str .any [(.str [97], .slice .any [.drop (.map .str .any [(.str [98], .drop (.int .int 1))])])]) [.str []])
+      = [109, 97, 112, 91, 97, 58, 91, 109, 97, 112, 91, 98, 58, 49, 93, 93, 93] := by
   decide +kernel
